@@ -105,3 +105,43 @@ def run_delegation(lib, rng, n_cases, T, rec, seed):
     if inj.switches == 0:
         rec.inconclusive_because("no context switch inside library code observed under %d threads" % T)
     return [(cases[i][0], cases[i][1], results[i]) for i in range(len(cases)) if results[i] is not None]
+
+
+def run_calls(lib, jobs, T, rec, seed, prob=0.1, label=""):
+    """generic schedule workload: jobs = [(fn, args, kwargs)], distributed over T threads that run concurrently with
+    yield injection at library lines; returns the outcomes in job order (None where a job did not run).  The caller
+    judges every outcome by the oracle of that call alone."""
+    results = [None] * len(jobs)
+    order = list(range(len(jobs)))
+    random.Random(seed).shuffle(order)
+    slices = [order[i::T] for i in range(T)]
+    errors = []
+    start = threading.Barrier(T)
+
+    def worker(t):
+        try:
+            start.wait()
+            for i in slices[t]:
+                fn, args, kwargs = jobs[i]
+                results[i] = boundary.call(lib, fn, *args, **kwargs)
+        except BaseException as e:  # noqa: BLE001
+            errors.append("%s: %s" % (type(e).__name__, e))
+
+    inj = sysmon.YieldInjector(lib.pkg_dir, random.Random(seed), prob=prob)
+    with inj:
+        ths = [threading.Thread(target=worker, args=(t,)) for t in range(T)]
+        for th in ths:
+            th.start()
+        for th in ths:
+            th.join(600)
+    if any(th.is_alive() for th in ths):
+        rec.inconclusive_because("thread workload %s did not finish within the watchdog" % label)
+        return None
+    if errors:
+        rec.inconclusive_because("thread harness error (%s): %s" % (label, errors[0]))
+        return None
+    rec.count("threaded_calls", len(jobs))
+    rec.count("context_switches_inside_library", inj.switches)
+    if inj.switches == 0 and len(jobs) >= 4 * T:
+        rec.inconclusive_because("no context switch inside library code observed under %d threads (%s)" % (T, label))
+    return results
